@@ -278,8 +278,6 @@ void World::graphOp(int op) {
     case 7: {  // makeDirected
       say("makeDirected()");
       if (gm.directed) { run(WF, [&] { g->makeDirected(); }); break; }
-      bool flip = false; for (const auto& kv : gm.edges) if (kv.second.first > kv.second.second) flip = true;
-      if (flip && known("C14-makedirected-edge-table")) return;
       run(WF, [&] { g->makeDirected(); });
       // "the resulting directions are totally arbitrary": each edge keeps its end points, in the order getNodes reports
       for (auto& kv : gm.edges) { pair<Id, Id> p = g->getNodes(kv.first); CHECK(p == kv.second || p == make_pair(kv.second.second, kv.second.first), what << " changed the end points of edge " << kv.first); kv.second = p; }
@@ -512,7 +510,8 @@ const char* NT = "history with a delete/unlink after >=2 links, or a direction c
 }  // namespace
 
 // ------------------------------------------------------------------ random histories: <= 40 operations over <= 8 nodes
-LAW(H_history, RC, 6000, 300000, 260, NT, 10) {
+// (a call that does not come back within 10 CPU-seconds is a violation: every call must return or raise)
+LAW(H_history, RC, 6000, 300000, 260, NT, 10, true) {
   bool directed = !c.flag();
   World w(c, false, 8, directed);
   int nops = c.irange(1, 40);
@@ -533,12 +532,13 @@ LAW(H_history, RC, 6000, 300000, 260, NT, 10) {
 // its current state, so every (state, operation) transition from a state reachable in < L operations is evaluated once;
 // the views are compared with the model after the last operation of every sequence (every prefix is a sequence of an
 // earlier round).  Replays do not prune and check after every operation.
-// The quick / thorough fields are shard counts: L = ENUM_LQ with fewer than ENUM_T shards, else ENUM_LT.
+// The quick / thorough fields of the two laws are shard counts; the length bound is the quick one with fewer than ENUM_T
+// shards, else the thorough one (full alphabet: 2 / 3, graph operations only: 3 / 4; the design asked for 4 / 6, which the
+// alphabet of ~250 operations per state does not allow: round 3 of the full alphabet already has ~2.10^6 transitions).
 const int ENUM_T = 64;  // with at least this many shards (thorough tier) the longer length is used
 static void sequences(vf::Ctx& c, bool graphOnly, int lenQuick, int lenThorough, std::unordered_map<uint64_t, uint64_t>& seen) {
   const bool enumerating = c.s.enumerating();
   int maxLen = enumerating ? (c.shardN >= ENUM_T ? lenThorough : lenQuick) : 6;
-  if (enumerating && getenv("C14_LEN")) maxLen = atoi(getenv("C14_LEN"));  // scratch experiments only
   int len = 1 + static_cast<int>(c.below(static_cast<uint64_t>(maxLen)));
   bool directed = !c.flag(); int shape = static_cast<int>(c.below(3));
   World w(c, true, 4, directed); w.graphOnly = graphOnly;
@@ -574,9 +574,9 @@ static void sequences(vf::Ctx& c, bool graphOnly, int lenQuick, int lenThorough,
   c.nt(w.ntDelete || w.ntDirection || w.illRaised > 0);
 }
 // every operation (graph, observer, copy/assign/drop): length <= 2 quick, <= 3 thorough
-LAW(E_sequences, ENUM, 16, ENUM_T, 0, NT, 5) { static std::unordered_map<uint64_t, uint64_t> seen; sequences(c, false, 2, 3, seen); }
+LAW(E_sequences, ENUM, 16, ENUM_T, 0, NT, 5, true) { static std::unordered_map<uint64_t, uint64_t> seen; sequences(c, false, 2, 3, seen); }
 // operations on the graph only (the observer of the start configuration looks on): length <= 3 quick, <= 4 thorough
-LAW(E_graph_sequences, ENUM, 16, ENUM_T, 0, NT, 5) { static std::unordered_map<uint64_t, uint64_t> seen; sequences(c, true, 3, 4, seen); }
+LAW(E_graph_sequences, ENUM, 16, ENUM_T, 0, NT, 5, true) { static std::unordered_map<uint64_t, uint64_t> seen; sequences(c, true, 3, 4, seen); }
 
 // The laws allocate many small containers per case: keep the allocation stack traces of ASan short (detection is unchanged).
 extern "C" const char* __asan_default_options() { return "malloc_context_size=3"; }
